@@ -153,6 +153,12 @@ def run_case(case, ctx):
         if kind == "where3":
             return mod.where(X > 0, X, Y)
         if kind == "whereout":
+            if op in ("greater", "not_equal") and type(Y) is int and getattr(X, "dtype", None) is not None \
+                    and X.dtype.kind in "iu" and not (np.iinfo(X.dtype).min <= Y <= np.iinfo(X.dtype).max):
+                # Calibration: NumPy 2.5.3 itself dies with SIGSEGV in np.greater(uint8_array, -1, where=m, out=o) (a
+                # comparison with a Python int outside the integer dtype's range, together with where=/out=); the
+                # reference cannot be evaluated, so the case is outside the domain (thorough seed 0, case 14448).
+                raise ValueError("reference crashes: comparison with an out-of-range Python int under where=/out=")
             shape = np.broadcast_shapes(np.shape(X), np.shape(Y))
             cond = (np.arange(int(np.prod(shape)) if shape else 1).reshape(shape) % 2) == 0
             # probe the result dtype on the NumPy side to allocate `out`
